@@ -377,6 +377,9 @@ def run_strings(ctx, hx, cov_dist):
 
 def process_strings(ctx, cases, shard):
     for c in cases:
+        if c["kind"] == "str_fail":
+            finding(ctx, "str-not-identity:%s:%s" % (c["entry"], c["class"]),
+                    "str of the string %s (via %s) is %s, not the string itself" % (bytes.fromhex(c["s"]), c["entry"], bytes.fromhex(c["got"])), c)
         if c["kind"] == "rt_fail":
             finding(ctx, "roundtrip:%s:%s" % ("bytes" if c["b"] else "string", c["class"]),
                         "Quote/unquote round trip fails on %s %s: %s" % ("bytes" if c["b"] else "string", bytes.fromhex(c["s"]), c["what"]), c)
